@@ -302,3 +302,119 @@ Proof.
   intros W Wm H. destruct (parse_request_chunked_aligned ipp p cs more req [] W Wm H) as (br & HP & A).
   exists br. split; [assumption|]. now apply aligned_nil.
 Qed.
+
+(* ================================================================================================================ *)
+(* The converse situation (finding F01): one read of at most `cap` bytes holds a complete request AND further bytes.   *)
+(* The reader pulls the whole read into its buffer; what follows the request stays in the buffer (and dies with it).   *)
+(* ================================================================================================================ *)
+
+Lemma fill_buf_inner_nil br : inner br = [] -> inner (fill_buf br) = [].
+Proof. intro H. unfold fill_buf. destruct (buf br); [rewrite H; reflexivity | assumption]. Qed.
+
+Lemma read_until_inner_nil d : forall fuel br acc line br',
+  inner (fill_buf br) = [] -> read_until fuel d br acc = Some (line, br') -> inner br' = [].
+Proof.
+  induction fuel as [|f IH]; intros br acc line br' Hi H; [discriminate|]. cbn [read_until] in H.
+  destruct (buf (fill_buf br)) as [|x b0]; [now injection H as <- <-|].
+  destruct (split_incl d (x :: b0)) as [[a rest]|]; [now injection H as <- <-|].
+  apply IH in H; [assumption|]. now apply fill_buf_inner_nil.
+Qed.
+
+Lemma read_line_inner_nil br line br' : inner (fill_buf br) = [] -> read_line br = Some (line, br') -> inner br' = [].
+Proof. unfold read_line. apply read_until_inner_nil. Qed.
+
+Lemma read_exact_br_inner_nil : forall fuel n br acc d br',
+  inner br = [] -> read_exact_br fuel n br acc = ROk d br' -> inner br' = [].
+Proof.
+  induction fuel as [|f IH]; intros n br acc d br' Hi H;
+    (destruct n as [|n0]; [rewrite read_exact_br_0 in H; now injection H as <- <-|]); [discriminate|].
+  cbn [read_exact_br] in H. destruct (buf br) as [|x0 b0] eqn:Eb.
+  - destruct (cap <=? S n0)%nat.
+    + rewrite Hi in H. cbn [read] in H. discriminate.
+    + rewrite (fill_buf_nil_inner br Eb Hi) in H. discriminate.
+  - apply IH in H; assumption.
+Qed.
+
+Lemma read_exact_N_inner_nil n br d br' : inner br = [] -> read_exact_N n br = ROk d br' -> inner br' = [].
+Proof.
+  unfold read_exact_N, read_exact. intro Hi. destruct (N.of_nat (length (contents br)) <? n); [discriminate|].
+  now apply read_exact_br_inner_nil.
+Qed.
+
+Lemma header_loop_br_inner_nil : forall fuel br acc hs br',
+  inner (fill_buf br) = [] -> header_loop_br fuel br acc = Ok (hs, br') -> inner br' = [].
+Proof.
+  induction fuel as [|f IH]; intros br acc hs br' Hi H; [discriminate|]. cbn [header_loop_br] in H.
+  destruct (read_line br) as [[line br1]|] eqn:Er; [|discriminate].
+  apply (read_line_inner_nil _ _ _ Hi) in Er.
+  destruct (negb (utf8_valid line)); [discriminate|].
+  destruct (beq line CRLF); [now injection H as <- <-|].
+  destruct (parse_header_line line); [|discriminate].
+  apply IH in H; [assumption|]. now apply fill_buf_inner_nil.
+Qed.
+
+Lemma body_of_br_inner_nil e hs br c br' : inner br = [] -> body_of_br e hs br = Ok (c, br') -> inner br' = [].
+Proof.
+  intro Hi. unfold body_of_br. destruct (hget (HKnown H_ContentLength) hs); [|now intros [= <- <-]].
+  destruct (parse_usize b); [|discriminate].
+  destruct (read_exact_N n br) as [| |d br2] eqn:Er; try discriminate. intros [= <- <-].
+  now apply (read_exact_N_inner_nil _ _ _ _ Hi Er).
+Qed.
+
+Lemma parse_request_br_inner_nil ipp p first br req br' :
+  inner (fill_buf br) = [] -> parse_request_br ipp p first br = Ok (req, br') -> inner br' = [].
+Proof.
+  intros Hi H. unfold parse_request_br in H.
+  destruct (read_line br) as [[line br1]|] eqn:Er; [|discriminate].
+  apply (read_line_inner_nil _ _ _ Hi) in Er.
+  destruct (parse_start_line (first :: line)) as [[[[m uri] query] version]|]; [|discriminate].
+  destruct (header_loop_br (S (length (contents br1))) br1 []) as [[hs br2]|e|w] eqn:EH; try discriminate.
+  apply header_loop_br_inner_nil in EH; [|now apply fill_buf_inner_nil].
+  destruct (body_of_br E_Stream hs br2) as [[c br3]|e|w] eqn:EB; try discriminate.
+  apply (body_of_br_inner_nil _ _ _ _ _ EH) in EB. now injection H as <- <-.
+Qed.
+
+(* one read of at most cap bytes: whatever is parsed, nothing is left unread behind the reader *)
+Lemma parse_request_chunked_single_inner ipp p c req br : (length c <= cap)%nat ->
+  parse_request_chunked ipp p [c] = Ok (req, br) -> inner br = [].
+Proof.
+  intros Hc. unfold parse_request_chunked. cbn [read]. destruct (length c <=? 1)%nat eqn:E.
+  - destruct c as [|b c0]; [discriminate|]. apply parse_request_br_inner_nil. reflexivity.
+  - apply Nat.leb_gt in E. destruct c as [|b c0]; [cbn in E; lia|]. cbn [firstn skipn].
+    apply parse_request_br_inner_nil. unfold fill_buf. cbn [br_new buf inner read].
+    replace (length c0 <=? cap)%nat with true by (symmetry; apply Nat.leb_le; cbn [length] in Hc; lia). reflexivity.
+Qed.
+
+(* the flat parser is stable under appending: derived from the alignment lemma and the refinement, no grammar needed *)
+Lemma parse_request_flat_app ipp p r1 r2 req :
+  parse_request_flat ipp p r1 = Ok (req, []) -> parse_request_flat ipp p (r1 ++ r2) = Ok (req, r2).
+Proof.
+  intro H. destruct r2 as [|x r2]; [now rewrite app_nil_r|].
+  assert (H1 : r1 <> []) by (intros ->; discriminate).
+  assert (W1 : wf_chunks [r1]) by (constructor; [assumption|constructor]).
+  assert (W2 : wf_chunks [x :: r2]) by (constructor; [discriminate|constructor]).
+  assert (H' : parse_request_flat ipp p (concat [r1]) = Ok (req, [])) by (cbn [concat]; now rewrite app_nil_r).
+  destruct (parse_request_chunked_aligned ipp p [r1] [x :: r2] req [] W1 W2 H') as (br & HP & A).
+  pose proof (parse_request_chunked_refines ipp p ([r1] ++ [x :: r2]) ltac:(apply Forall_app; auto)) as R.
+  rewrite HP in R. cbn [app concat] in R. rewrite app_nil_r in R.
+  destruct (parse_request_flat ipp p (r1 ++ x :: r2)) as [[q l]|e|w]; cbn [orel] in R; try contradiction.
+  destruct R as (<- & Hc & _). rewrite (aligned_contents _ _ _ A) in Hc. cbn [concat app] in Hc.
+  rewrite app_nil_r in Hc. now subst.
+Qed.
+
+(* F01 in general: a read of at most cap bytes holding a complete request r1 followed by any further bytes r2: the
+   request is parsed, and ALL of r2 sits in the reader's buffer — nothing of it is left for the next reader *)
+Theorem parse_request_chunked_coalesced ipp p r1 r2 req : (length (r1 ++ r2) <= cap)%nat ->
+  parse_request_flat ipp p r1 = Ok (req, []) ->
+  exists br, parse_request_chunked ipp p [r1 ++ r2] = Ok (req, br) /\ buf br = r2 /\ inner br = [].
+Proof.
+  intros Hc H. pose proof (parse_request_flat_app ipp p r1 r2 req H) as HF.
+  assert (H1 : r1 <> []) by (intros ->; discriminate).
+  assert (W : wf_chunks [r1 ++ r2]).
+  { constructor; [|constructor]. intro E. apply app_eq_nil in E. tauto. }
+  pose proof (parse_request_chunked_refines ipp p [r1 ++ r2] W) as R. cbn [concat] in R. rewrite app_nil_r, HF in R.
+  destruct (parse_request_chunked ipp p [r1 ++ r2]) as [[q br]|e|w] eqn:EP; cbn [orel] in R; try contradiction.
+  destruct R as (-> & Hcont & _). exists br.
+  pose proof (parse_request_chunked_single_inner ipp p _ _ _ Hc EP) as Hin.
+  unfold contents in Hcont. rewrite Hin in Hcont. cbn [concat] in Hcont. rewrite app_nil_r in Hcont. auto.
+Qed.
